@@ -708,7 +708,7 @@ pub fn c26(tier: Tier) -> i32 {
     let rep = Report::new("C26", tier);
     rep.rule("all enabled sequences up to the stated length over {insert(key, fresh payload) for 4 keys (2 short, 2 of 2000 bytes so that a leaf holds 4 cells), delete(newest pair of key), delete(oldest pair of key), delete(absent pair), reopen pager} executed on the real BTree + Pager from an empty tree; after EVERY step: full scan == reference multimap (as a multiset, keys non-decreasing), lookup(key) == most recently inserted payload for each key; then a longer family of pure insert sequences (all sequences over the 2 long keys up to the stated length) that reaches leaf and internal splits; non-trivial = sequences with at least one split (>= 5 long-key entries) or a delete");
     let ops = bops(4);
-    let depth = tier.pick(5usize, 7);
+    let depth = tier.pick(6usize, 8);
     // enumerate level by level with enabledness; violating prefixes are not extended
     let mut frontier: Vec<Vec<BOp>> = vec![vec![]];
     let cap = tier.pick(50.0, 2400.0);
@@ -785,7 +785,7 @@ pub fn c26(tier: Tier) -> i32 {
     }
     rep.set("completed_depth", json!(completed));
     // long-key insert family (reaches splits): all sequences over {Insert(2), Insert(3)} of length <= L
-    let l = tier.pick(11usize, 15);
+    let l = tier.pick(13usize, 16);
     let total: u64 = (1..=l as u32).map(|n| 2u64.pow(n)).sum();
     let fam: Vec<(Vec<BOp>, Option<(String, String)>)> = (0..total)
         .into_par_iter()
